@@ -13,5 +13,25 @@ CLAIMS = {
     note="Trusted: z3/cvc5, clang's parser, the VC generator, the transcription of the ASTM rules, the C-API model in vc/cfront.py; floats "
          "uninterpreted; numba assumed semantics-preserving; allocation-failure paths, refcounts and the non-compiled two-pass C variant not verified.",
     technique="contracts + loop invariants + block refinement against ASTM spec; VCs from Python ast / clang AST; z3 (array-property instantiation), cvc5 fallback"),
+ "C03": dict(
+    text="Proof (sympy, exact real arithmetic) that the six ramp-invariant coefficient functions of srs.py (real function objects executed on "
+         "symbolic Q, dT, wn; regimes wn>0 and wn==0) reproduce the exact oscillator response to every piecewise-linear input from rest: the "
+         "spec response is derived from the ODE itself (lemmas checked by differentiation), the filter must match the hat-function response at "
+         "samples 0..len(b)+1 and at a symbolic later time; relations pvelo=w*reldisp, pacce=w^2*reldisp and the static gains used by the "
+         "steady-state add-back are proved. Initial-condition rules, time windows, t vector, eqsine and multi-frequency padding are checked by "
+         "running the real srs.srs on a symbolic 2-sample record (bounded in record length, labelled bounded).",
+    note="Trusted: sympy, the symbolic shims of math/NumPy allocation, scipy.signal.lfilter = LTI direct-form filter (assumed contract). Floats are "
+         "mathematical reals: round-off and the sr/fn<=2000 conditioning clause are not decided. Not covered: resamplers, srs_frf/vrs/Miles.",
+    technique="contracts as ODE-lemma specifications; real functions executed on symbolic inputs (concolic shim); sympy normal forms + 50-digit refutation"),
+ "C01": dict(
+    text="Proof (sympy) that get_su_coef's eight coefficients satisfy the ODE-lemma characterisation of the exact piecewise-linear-force step in every "
+         "damping regime (under/over/critical, rigid, damped rigid, documented velocity-only cut-off band, m None or given, residual flexibility) and that "
+         "_get_complex_su_coefs gives the scalar first-order-hold integrals (incl. slow roots with small steps and the zero root); proof (z3, loop invariant, "
+         "all nt) that _solve_real_unc_inner_loop realises the documented recurrence for order 0 and 1. Wiring of SolveUnc (initial conditions, rb/el/rf "
+         "partition, equation of motion, option invariance) on a symbolic 3-mode system with nt=3 and float runs of SolveUnc/SolveExp2 against an "
+         "independent expm reference are bounded stand-ins. One known finding (pre_eig with non-zero d0/v0).",
+    note="Trusted: sympy, z3, symbolic shims, uniqueness of linear IVPs. Floats are reals; regime coverage is per branch-decision set of each witness. "
+         "Not covered deductively: coupled path through scipy.linalg.eig, SolveExp1/2 (scipy expm), pre_eig, conditioning grades.",
+    technique="ODE-lemma contracts on real functions run symbolically (sympy); loop-invariant VCs (z3) under a row-wise abstraction; bounded float replay vs expm"),
 }
 NOT_APPLICABLE = {}
